@@ -92,8 +92,9 @@ Qed.
 Lemma tmarshal_np : forall o g, np (tmarshal o g).
 Proof.
   intros o g. unfold tmarshal.
-  destruct (_ || _); [apply np_err|].
-  match goal with |- np (if ?b then _ else _) => destruct b; [apply np_err|] end.
+  (* any number of up-front guards "if ... then Err ..." (precisions, ID list on a simple type,
+     ID count: fixes F15, F72), then the writer *)
+  repeat match goal with |- np (if ?b then Err _ else _) => destruct b; [apply np_err|] end.
   apply np_bind; [apply twrite_np|]. intros [bs st]. apply np_ok.
 Qed.
 
